@@ -1012,6 +1012,49 @@ impl Runner<'_> {
                 };
                 self.finish_line(res)
             }
+            ["wcancel", i, k] | ["wdstream", i, k] => {
+                // the peer writes and the future / stream is dropped BEFORE the driver is polled again:
+                // on io_uring the kernel has already completed the receive into a pool buffer and the
+                // completion is reaped only after the user's key is gone
+                let (Ok(i), Ok(k)) = (i.parse::<usize>(), k.parse::<usize>()) else { return "bad".into() };
+                if !self.src_ok(i) || k == 0 || k > 1024 {
+                    return "bad".into();
+                }
+                let multi = w[0] == "wdstream";
+                let sys = self.sys.as_mut().unwrap();
+                let s = sys.srcs[i].as_mut().unwrap();
+                if matches!(s.tx, Tx::None) || (multi && s.strm.is_none()) || (!multi && s.fut.is_none()) {
+                    return "bad".into();
+                }
+                let data: Vec<u8> = (0..k as u64).map(|j| pattern(i, s.seq + j)).collect();
+                s.seq += k as u64;
+                let r = match &mut s.tx {
+                    Tx::Pipe(f) => f.write_all(&data),
+                    Tx::Tcp(f) => f.write_all(&data),
+                    Tx::Unix(f) => f.write_all(&data),
+                    Tx::Udp(f) => f.send(&data).map(|_| ()),
+                    Tx::None => unreachable!(),
+                };
+                if let Err(e) = r {
+                    fail(self.ex, &self.tainted, "C07:harness", format!("write failed: {e}"));
+                }
+                if s.kind == SrcKind::Udp {
+                    s.dgrams.push_back(data);
+                } else {
+                    s.sent.extend_from_slice(&data);
+                }
+                s.lossy = true;
+                let rt = sys.rt.as_ref().unwrap();
+                if multi {
+                    let st = s.strm.take();
+                    rt.enter(|| drop(st));
+                } else {
+                    let f = s.fut.take();
+                    rt.enter(|| drop(f));
+                }
+                self.ex.tag(if multi { "race:write-then-drop-stream" } else { "race:write-then-drop-future" });
+                self.finish_line("ok".into())
+            }
             ["spin", i, k] => {
                 let (Ok(i), Ok(k)) = (i.parse::<usize>(), k.parse::<usize>()) else { return "bad".into() };
                 if !self.src_ok(i) || k > 200000 {
@@ -1443,7 +1486,11 @@ fn gen_program(rng: &mut Rng, kind: &str, n: u64, len: u64, n_ops: usize) -> Vec
             }
         } else if r < 49 {
             if s.fut {
-                lines.push(format!("cancel {i}"));
+                if rng.chance(1, 2) && !s.closed {
+                    lines.push(format!("wcancel {i} {}", rng.range(1, len + 2)));
+                } else {
+                    lines.push(format!("cancel {i}"));
+                }
                 s.fut = false;
             }
         } else if r < 57 {
@@ -1460,7 +1507,11 @@ fn gen_program(rng: &mut Rng, kind: &str, n: u64, len: u64, n_ops: usize) -> Vec
             }
         } else if r < 82 {
             if s.strm {
-                lines.push(format!("dstream {i}"));
+                if rng.chance(1, 2) && !s.closed {
+                    lines.push(format!("wdstream {i} {}", rng.range(1, 2 * len + 2)));
+                } else {
+                    lines.push(format!("dstream {i}"));
+                }
                 s.strm = false;
             }
         } else if r < 95 {
@@ -1528,6 +1579,41 @@ fn gen_exhaust(rng: &mut Rng, kind: &str, n: u64, len: u64) -> Vec<String> {
     for _ in 0..np {
         lines.push(format!("dropn {}", rng.below(16)));
     }
+    lines
+}
+
+/// completions that arrive after the user dropped the future / the stream: a read is pending in the
+/// kernel, the peer writes (the kernel completes the read into a pool buffer), the future is dropped
+/// before the driver reaps the completion; repeated more often than the pool has buffers
+fn gen_cancel_race(rng: &mut Rng, kind: &str, n: u64, len: u64, sk: &str) -> Vec<String> {
+    let mut lines = vec![format!("init {kind} {n} {len}"), format!("src 0 {sk} 0")];
+    let np = n.next_power_of_two();
+    let rounds = np + 1 + rng.below(3);
+    let multi = rng.chance(1, 3);
+    for r in 0..rounds {
+        if multi {
+            lines.push(format!("open 0 {}", if sk == "pipe" { 0 } else { *rng.pick(&[0, 1, len]) }));
+            lines.push("next 0".into());
+            lines.push(format!("wdstream 0 {}", rng.range(1, len + 1)));
+        } else {
+            lines.push(format!("read 0 {}", rng.pick(&[0, 1, len])));
+            if rng.chance(1, 6) {
+                lines.push("await 0".into());
+            }
+            lines.push(format!("wcancel 0 {}", rng.range(1, len + 1)));
+        }
+        if r % 3 == 2 && rng.chance(1, 2) {
+            // a normal read in between: the data of the cancelled reads may or may not be there
+            lines.push("write 0 2".into());
+            lines.push("read 0 0".into());
+            lines.push("await 0".into());
+            lines.push("dropn 0".into());
+        }
+    }
+    // afterwards the pool must still hand out buffers
+    lines.push("write 0 3".into());
+    lines.push("read 0 0".into());
+    lines.push("await 0".into());
     lines
 }
 
@@ -1674,12 +1760,22 @@ fn generate(tier: &str, rng: &mut Rng) -> Vec<Case> {
         let len = *rng.pick(&lens[..4]);
         cases.push(Case { name: format!("wrap-{n}"), lines: gen_wrap(rng, n, len) });
     }
-    // raw API on pool-owned buffers
-    for c in 0..(if thorough { 60 } else { 12 }) {
-        let kind = if c % 2 == 0 && ring_ok { "ring" } else { "fb" };
-        let n = rng.range(1, 8);
-        cases.push(Case { name: format!("raw-{kind}-{c}"), lines: gen_raw(rng, kind, n, 8) });
+    // completions arriving after the future / stream was dropped, every pool kind and source kind
+    for (c, sk) in ["tcp", "unix", "udp", "pipe"].iter().enumerate() {
+        for kind in ["ring", "fb"] {
+            if kind == "ring" && !ring_ok {
+                continue;
+            }
+            for rep in 0..(if thorough { 16 } else { 3 }) {
+                let n = if rep == 0 { [1, 2, 4, 8][c] } else { rng.range(1, 16) };
+                let len = *rng.pick(&lens[..4]);
+                cases.push(Case { name: format!("cancel-race-{kind}-{sk}-{rep}"), lines: gen_cancel_race(rng, kind, n, len, sk) });
+            }
+        }
     }
+    // (the raw `take` / `reset` API applied to pool-owned ids is outside the programs C07 quantifies over:
+    // `gen_raw` is kept for the documented observation in notes/C07.md, not generated here)
+    let _ = gen_raw;
     cases
 }
 
